@@ -28,7 +28,8 @@ func C20(c *Ctx) {
 		"(A12) pagination-callback idiom on go/ssa CFGs: in every closure passed to query.FilteredPaginate the append to the result is guarded by `accumulate`, no non-error return is control- or data-dependent on `accumulate` (so counting pages and collecting pages see the same hits), the appended element is the decoded `value`, and every `false` return is guarded by a predicate over the request; " +
 		"for GenericFilteredPaginate callbacks a nil result is returned only under a request-dependent filter and the returned item carries the decoded value; " +
 		"(A7) every store section is encoded and decoded with one single Go type across all writers, getters, iterators and paginated queries, and the prefix store handed to a paginator is the section its callback decodes. Structural necessary conditions; SDK paginator correctness is trusted."
-	r.Rules = []string{"A1.query-readonly", "A12.accumulate-guard", "A12.hit-independent-of-accumulate", "A12.element", "A12.item-identity", "A12.filter-only-drop", "A12.filter-complete", "A11.parser", "A11.reprefix", "A7.section-type"}
+	r.Rules = []string{"A1.query-readonly", "A12.accumulate-guard", "A12.hit-independent-of-accumulate", "A12.element", "A12.item-identity", "A12.filter-only-drop", "A12.filter-complete", "A11.parser", "A11.reprefix", "A7.section-type", "A12.decode-fresh"}
+	decodeFresh(c, ir.Modules...)
 	r.Trusted = []string{"cosmos-sdk types/query FilteredPaginate / GenericFilteredPaginate semantics", "codec (Must)Unmarshal decodes what (Must)Marshal encoded for the same type"}
 	r.NotDecided = []string{"cross-page completeness as behaviour", "bank keeper pagination used by TotalSupply"}
 
@@ -108,6 +109,16 @@ func C20(c *Ctx) {
 						}
 					}
 					genericPaginateCallback(c, f, call, cb)
+					// the paginator decodes each entry into what the constructor hands it: a value nothing was decoded into before
+					if len(call.Common().Args) > 4 && !ir.IsFixture(f) {
+						ctor := closureArg(call.Common().Args[4])
+						if ctor == nil {
+							r.Undecided("A12.decode-fresh", "ctor|"+fn(f), pos(c, in), "the constructor handed to GenericFilteredPaginate is resolvable", "not a function literal, bound method or named function")
+						} else {
+							why := notFresh(ctor, 0)
+							r.Require(why == "", "A12.decode-fresh", "ctor|"+fn(f), pos(c, in), "the constructor handed to GenericFilteredPaginate returns a newly created value on every call (the paginator decodes the next entry into it, and decoding leaves absent fields as they are)", why)
+						}
+					}
 					if !ir.IsFixture(f) {
 						nFilt += filterComplete(c, call, call.Common().Args[3], 1, true)
 					}
@@ -683,7 +694,10 @@ func itemIdentityFields(c *Ctx, parent, cb *ssa.Function, ret *ssa.Return, rk st
 			if keep, ok := fields["@keep"]; ok {
 				k := w.ExpandKeep(keep, 3, isStreamKeyParser)
 				if os.Getenv("MCDEBUG") == "keep" {
-					fmt.Fprintln(os.Stderr, "keep", rk, party, k.Op, k.Name, len(k.Args), "addr", addr.String()); if len(k.Args) == 2 { fmt.Fprintln(os.Stderr, "  parsed", isParsed(k.Args[0]), isParsed(k.Args[1]), k.Args[1].String() == addr.String()) }
+					fmt.Fprintln(os.Stderr, "keep", rk, party, k.Op, k.Name, len(k.Args), "addr", addr.String())
+					if len(k.Args) == 2 {
+						fmt.Fprintln(os.Stderr, "  parsed", isParsed(k.Args[0]), isParsed(k.Args[1]), k.Args[1].String() == addr.String())
+					}
 				}
 				if (k.Op == "call" || k.Op == "invoke") && strings.HasSuffix(k.Name, "AccAddress).Equals") && len(k.Args) == 2 {
 					a, b := k.Args[0], k.Args[1]
